@@ -107,6 +107,16 @@ Proof.
   cbv zeta. apply DistEquiv.sim_join; apply DistEquiv.sim_leaf_order; try reflexivity; simpl; apply Permutation.perm_swap.
 Qed.
 
+(* histogram_quantile groups the samples of a step by output series and hands each group's buckets to
+   bucketQuantile: on exact numbers the step's result is the same for every order in which the operand
+   lists its samples (BucketProofs.v; on floats the counts of equal upper bounds are added in arrival order) *)
+From Verif Require Bucket BucketProofs.
+Theorem C11_histogram_quantile_independent_of_sample_order : forall (pinf ninf : Qcanon.Qc) nout idx q vec vec',
+  Permutation.Permutation vec vec' ->
+  Bucket.hist_step Qcanon.Qc BucketProofs.qcops pinf ninf nout idx q vec = Bucket.hist_step Qcanon.Qc BucketProofs.qcops pinf ninf nout idx q vec'.
+Proof. exact BucketProofs.hist_step_order_independent. Qed.
+Print Assumptions C11_histogram_quantile_independent_of_sample_order.
+
 (* PARTIAL. Proved: independence of the shard count and of batching for every
    operator tree, with each operator's Next taken as atomic and the coalesce
    merging in operator order (as the code does since the fix recorded in
